@@ -1,6 +1,7 @@
 import IvpModel.Driver.MatrixDrv
 import IvpModel.Driver.SolOutDrv
 import IvpModel.Driver.SolveDrv
+import IvpModel.Driver.LuDrv
 
 def main (args : List String) : IO UInt32 := do
   let stdin ← IO.getStdin
@@ -8,6 +9,9 @@ def main (args : List String) : IO UInt32 := do
   match args with
   | ["matrix"] =>
       for o in Drv.Matrix.run lines do IO.println o
+      return 0
+  | ["lu"] =>
+      for o in Drv.Lu.run lines do IO.println o
       return 0
   | ["solve"] =>
       for o in Drv.Solve.run lines do IO.println o
